@@ -376,20 +376,17 @@ Definition flt_ok (flt : option N) (n : N) : Prop :=
   | Some f => (n <= N.max f 1)%N
   end.
 
-Lemma doc_limit_zero_ok k L0 : doc_limit k 0 None = Ok L0 -> (N.max k 1 <= USIZE_MAX)%N.
-Proof.
-  unfold doc_limit. destruct (USIZE_MAX <? N.max k 1 + 0)%N eqn:E; [discriminate|]. intros _. lia.
-Qed.
+(* since /repo 9b4da04 the sizing arithmetic saturates: doc_limit never panics *)
+Lemma doc_limit_total k hint flt : exists L, doc_limit k hint flt = Ok L.
+Proof. unfold doc_limit. eexists; reflexivity. Qed.
 
+(* doc_limit is monotone in the cursor: what fits the first page's limit fits every later one *)
 Lemma doc_limit_covers n k hint flt L0 :
   doc_limit k 0 None = Ok L0 -> (n <= L0)%N -> flt_ok flt n ->
-  (N.max k 1 + hint <= USIZE_MAX)%N ->
   exists L, doc_limit k hint flt = Ok L /\ (n <= N.max L 1)%N.
 Proof.
   unfold doc_limit, DOC_LIMIT_FACTOR, DOC_LIMIT_FLOOR. rewrite USIZE_MAX_val.
-  destruct (18446744073709551615 <? N.max k 1 + 0)%N eqn:E0; [discriminate|].
-  intros H0 Hn Hf Hb. inversion H0; subst L0; clear H0.
-  replace (18446744073709551615 <? N.max k 1 + hint)%N with false by lia.
+  intros H0 Hn Hf. inversion H0; subst L0; clear H0.
   eexists; split; [reflexivity|].
   destruct flt as [f|]; cbn [flt_ok] in Hf; lia.
 Qed.
@@ -442,15 +439,14 @@ Section EndToEndProofs.
   Lemma e2e_page_fixed has_lex flt cands k c :
     limit_binds cands k = false -> flt_ok flt (len cands) ->
     (0 < total_slices (resort combined (evaluate (N.max k 1) cands)))%N ->
-    (N.max k 1 + offset_hint c <= USIZE_MAX)%N ->
     e2e_page combined has_lex flt cands k c =
     page_of true emit_tantivy (resort combined (evaluate (N.max k 1) cands)) k c.
   Proof.
-    intros Hlim Hflt Ht Hb. unfold limit_binds in Hlim.
+    intros Hlim Hflt Ht. unfold limit_binds in Hlim.
     destruct (doc_limit k 0 None) as [L0| |] eqn:E0; try discriminate.
-    destruct (doc_limit_covers (len cands) k (offset_hint c) flt L0 E0) as (L & HL & Hn); [lia | exact Hflt | exact Hb |].
+    destruct (doc_limit_covers (len cands) k (offset_hint c) flt L0 E0) as (L & HL & Hn); [lia | exact Hflt |].
     unfold e2e_page, e2e_search. rewrite HL.
-    rewrite firstn_all2 by (unfold len in Hn; lia).
+    rewrite firstn_all2 by (unfold len in *; lia).
     rewrite after_engine_page by exact Ht.
     destruct (page_of true emit_tantivy _ k c); reflexivity.
   Qed.
@@ -460,7 +456,6 @@ Section EndToEndProofs.
     flt_ok flt (len cands) ->
     let EV := resort combined (evaluate (N.max k 1) cands) in
     (0 < total_slices EV)%N ->
-    (total_slices EV + N.max k 1 <= USIZE_MAX)%N ->
     (len (stream emit_tantivy EV) <= N.max K 1)%N ->
     exists pages one,
       follow (S (N.to_nat (total_slices EV))) (e2e_page combined has_lex flt cands k) None = (pages, Done) /\
@@ -471,22 +466,16 @@ Section EndToEndProofs.
       (len pages <= N.max 1 (total_slices EV))%N /\
       Forall (fun p => len (p_hits p) <= N.max k 1)%N pages.
   Proof.
-    intros Hk HK Hcap Hflt EV Ht Hb Hroom.
+    intros Hk HK Hcap Hflt EV Ht Hroom.
     destruct (layer_pagination emit_tantivy true EV k K Hroom) as (pages & one & Hf & Hone & Hc & Htot & Hp & Hl & Ha).
     exists pages, one. split; [|split; [|repeat split; assumption]].
     - rewrite <- Hf.
-      apply (follow_ext (fun c => c = None \/ exists m, c = cursor_of m /\ (m <= total_slices EV)%N)).
-      + intros c Hc'. apply e2e_page_fixed; try assumption.
-        destruct Hc' as [-> | (m & -> & Hm)]; cbn [offset_hint cursor_of]; lia.
-      + intros c p n _ Hpage Hn. right. exists n. split; [reflexivity|].
-        pose proof (page_of_next_lt _ _ _ _ _ _ _ Hpage Hn). lia.
-      + left; reflexivity.
+      apply (follow_ext (fun _ => True)); [| trivial | trivial].
+      intros c _. apply e2e_page_fixed; assumption.
     - assert (HEV : resort combined (evaluate (N.max K 1) cands) = EV).
       { unfold EV. f_equal. symmetry. apply evaluate_cap_eq. apply cap_binds_false, Hcap. }
       rewrite <- Hone, <- HEV. apply e2e_page_fixed; try assumption.
-      + rewrite HEV. exact Ht.
-      + unfold limit_binds in HK. destruct (doc_limit K 0 None) as [L0| |] eqn:E0; try discriminate.
-        pose proof (doc_limit_zero_ok _ _ E0). cbn [offset_hint]. lia.
+      rewrite HEV. exact Ht.
   Qed.
 End EndToEndProofs.
 
